@@ -52,11 +52,16 @@
                                    followed by indentation (the whitespace in front of what follows has no
                                    newline)
 
+             | Vrb2 ws name post dc text      ws \name post dc text dc   (stage (e7): the verbatim macro)
+             | VEnv2 ws bws name oarg text    ws \begin bws {name} [oarg] text \end{name}   (stage (e7):
+                                   verbatim environments, with the optional argument of the signature
+                                   written, or absent)
+
     NOT covered:
     a paragraph break directly after a control word /
     comment, paragraph-break whitespace in a context without the [\n\n] specials,
     comments before an argument, a delimited argument directly nested in the body of another one,
-    verbatim (macro, environments, argument kind).
+    the verbatim ARGUMENT kind ([v] arguments of custom signatures).
 
     Full statement (kept for reference, not proved):
       forall ctx d, ctx_wf ctx = true -> ok_doc ctx d = true ->
@@ -225,6 +230,7 @@ Close Scope N_scope.
                       parsed in math mode when the environment is declared so; [bws], [ews] any
                       whitespace; only where the state has environments enabled)
               | Spc2 ws chars args          ws chars {arg}…{arg}   (a specials sequence of the context)
+              | Vrb2 ws name post dc text | VEnv2 ws bws name oarg text   (verbatim macro / environments)
               | Brk2 ws oc cc body tr | Abs2   (argument position only: a delimited argument, an absent one)
 
     The side conditions [ok_item2] see the whole FOLLOW STRING of an item. *)
@@ -469,6 +475,36 @@ Example C02_comment_eof_par_indent_nonvacuous :
    parse_top (unparse2 d) false default_ctx (walker_state default_ctx) = doc_result2 default_ctx d /\
    length (unparse2 d) = 22%nat /\
    length (fst (tree_of2 default_ctx (walker_state default_ctx) 0 d)) = 7%nat) /\
+  (ok_doc2 default_ctx bad1 = false /\
+   parse_top (unparse2 bad1) false default_ctx (walker_state default_ctx) <> doc_result2 default_ctx bad1) /\
+  (ok_doc2 default_ctx bad2 = false /\
+   parse_top (unparse2 bad2) false default_ctx (walker_state default_ctx) <> doc_result2 default_ctx bad2).
+Proof. vm_compute. repeat split; discriminate. Qed.
+
+(** verbatim (stage (e7)):
+    [a\verb|x{\%|b \verb +$+\begin{verbatim} \x{ %\end {v}\end{verbatim}\n\begin {lstlisting}[a=b]c\end{lstlisting}\begin{lstlisting} q\end{lstlisting}\begin{lstlisting}q[\end{lstlisting}]
+    — [\verb] with two delimiters (active characters inside), a verbatim environment
+    whose text contains [\end {v}], [lstlisting] with its optional argument written,
+    absent before a blank, absent before a character; [\verb|x||] (the delimiter in the
+    text) and [\begin{lstlisting}[q…] (an absent optional argument followed by [[]) are
+    rejected and really parse differently *)
+Example C02_verbatim_nonvacuous :
+  let verb := [118;101;114;98] in let verbatim := [118;101;114;98;97;116;105;109] in
+  let lstlisting := [108;115;116;108;105;115;116;105;110;103] in
+  let d := {| d_items2 :=
+       [Text2 [] [97]; Vrb2 [] verb [] 124 [120;123;92;37]; Text2 [] [98];
+        Vrb2 [32] verb [32] 43 [36];
+        VEnv2 [] [] verbatim [] [32;92;120;123;32;37;92;101;110;100;32;123;118;125];
+        VEnv2 [10] [32] lstlisting [Brk2 [] 91 93 [Text2 [] [97;61;98]] []] [99];
+        VEnv2 [] [] lstlisting [Abs2] [32;113];
+        VEnv2 [] [] lstlisting [Abs2] [113;91]];
+     d_trail2 := [] |} in
+  let bad1 := {| d_items2 := [Vrb2 [] verb [] 124 [120;124]]; d_trail2 := [] |} in
+  let bad2 := {| d_items2 := [VEnv2 [] [] lstlisting [Abs2] [91;113]]; d_trail2 := [] |} in
+  (ok_doc2 default_ctx d = true /\
+   parse_top (unparse2 d) false default_ctx (walker_state default_ctx) = doc_result2 default_ctx d /\
+   length (unparse2 d) = 181%nat /\
+   length (fst (tree_of2 default_ctx (walker_state default_ctx) 0 d)) = 9%nat) /\
   (ok_doc2 default_ctx bad1 = false /\
    parse_top (unparse2 bad1) false default_ctx (walker_state default_ctx) <> doc_result2 default_ctx bad1) /\
   (ok_doc2 default_ctx bad2 = false /\
